@@ -147,8 +147,23 @@ var (
 	sUnbounded  bool
 )
 
+// in a one-task execution a bracketed statement that never completes is an
+// unbounded wait: nobody exists who could wake the task
+var (
+	sSoloBlocking bool
+	sSoloBkCount  uint64
+)
+
+//go:norace
+func soloBlocked() (bool, uint64) { return sMode == modeCount && sSoloBlocking, sSoloBkCount }
+
 //go:norace
 func bkEnter() int32 {
+	if sMode == modeCount {
+		sSoloBlocking = true
+		sSoloBkCount++
+		return -2
+	}
 	if sMode != modeSched || sTurn < 0 {
 		return -1
 	}
@@ -167,6 +182,10 @@ func settle() {
 
 //go:norace
 func bkLeave(tok int32) {
+	if tok == -2 {
+		sSoloBlocking = false
+		return
+	}
 	if tok < 0 || int(tok) >= len(sTasks) {
 		return
 	}
@@ -548,12 +567,28 @@ func parkedForever() bool {
 // STALL and exits with code 4; the driver counts the run as not simulated and
 // carries on with the next one. (Reading the wall clock here influences no
 // run: it only decides when to give up on one.)
-func StartStallMonitor(report func(), unbounded func()) {
+func StartStallMonitor(report func(), unbounded func(solo bool)) {
 	go func() {
 		var last uint64
 		same := 0
+		var soloLast uint64
+		soloSame := 0
 		for {
 			time.Sleep(500 * time.Millisecond)
+			if b, n := soloBlocked(); b {
+				if n == soloLast {
+					soloSame++
+				} else {
+					soloSame, soloLast = 0, n
+				}
+				if soloSame >= 8 {
+					// one task, 4 s inside one channel / WaitGroup statement: nobody
+					// can wake it
+					unbounded(true)
+				}
+			} else {
+				soloSame = 0
+			}
 			m, c, w := schedProgress()
 			if m != modeSched {
 				same = 0
@@ -568,7 +603,7 @@ func StartStallMonitor(report func(), unbounded func()) {
 			if same >= 6 && parkedForever() {
 				// 3 s without progress and every live task is parked inside a
 				// channel / Cond / WaitGroup operation: nobody is left to wake them
-				unbounded()
+				unbounded(false)
 			}
 			if same >= 40 {
 				report()
